@@ -401,6 +401,7 @@ type c38Node struct {
 	notified map[string]int // (origin,id) -> notifications to multicast subscribers
 	fwdInv   map[string]int // (origin,id) -> invocations that sent it on
 	received map[string]int // (origin,id) -> handler invocations
+	life     map[string]time.Duration // expiring cache key -> virtual remaining life
 }
 
 type c38Net struct {
@@ -485,10 +486,10 @@ var c38Clocks = []struct {
 	{"2min-ahead", false, 2 * time.Minute},
 }
 
-// c38Jump is the one step of virtual time an execution may take: "45 s pass
+// c38Jump is the one step of virtual time an execution may take: "40 s pass
 // on every node". It stays inside the one-minute window counted from any
-// receipt with 15 s to spare for the real milliseconds an execution lasts.
-const c38Jump = 45 * time.Second
+// receipt; real time plays no part (see "virtual time" at the end of the file).
+const c38Jump = 40 * time.Second
 
 var c38Variants = []string{"all-joined", "observer-in-the-middle", "last-edge-kept-not-neighbour", "middle-has-no-group(relay)"}
 
@@ -498,11 +499,15 @@ var c38Variants = []string{"all-joined", "observer-in-the-middle", "last-edge-ke
 func (n *c38Net) run(i int, what string, f func() error) {
 	x := n.x
 	nd := n.nodes[i]
+	n.arm(nd)
 	cache = nd.cache
 	n.running, n.out = i, nil
 	pubsBefore := len(nd.sub.pubs)
+	t0 := time.Now()
 	err := f()
 	n.running = -1
+	n.capture(nd, time.Since(t0))
+	n.arm(nd)
 	if err != nil {
 		x.Broken("%s at n%d returned %v", what, i, err)
 	}
@@ -614,6 +619,8 @@ func TestVerifC38Flood(t *testing.T) {
 	maxDev := mc.EnvInt("VERIF_C38_DEV", mc.Pick(1, 3))
 	// second message only on topologies with at most this many edges
 	jumps := mc.EnvInt("VERIF_C38_JUMPS", 1)
+	// skewed origin clocks and the time jump only on topologies up to this size
+	timeMaxEdges := mc.EnvInt("VERIF_C38_TIME_EDGES", 4)
 	twoMsgMaxEdges := mc.EnvInt("VERIF_C38_TWOMSG_EDGES", 3)
 	// two interleaved floods multiply the state space: fewer deviations there
 	twoMsgDev := mc.EnvInt("VERIF_C38_TWOMSG_DEV", mc.Pick(1, 2))
@@ -642,6 +649,9 @@ func TestVerifC38Flood(t *testing.T) {
 		for v := 0; v < nVar; v++ {
 			for o1 := 0; o1 < tp.n; o1++ {
 				for ck := 0; ck < nClocks; ck++ {
+					if ck > 0 && len(tp.edges) > timeMaxEdges {
+						break
+					}
 					configs = append(configs, config{tp, v, o1, -1, ck})
 				}
 				if maxMsgs > 1 && len(tp.edges) <= twoMsgMaxEdges && tp.n <= twoMsgMaxNodes {
@@ -678,7 +688,7 @@ func TestVerifC38Flood(t *testing.T) {
 			net := &c38Net{x: x, running: -1}
 			for i := 0; i < tp.n; i++ {
 				nd := &c38Node{idx: i, addr: c38Addr(0x30, i), cache: c38FreshCache(), sub: &c38SubPub{}, route: &c38Route{nb: map[string]bool{}},
-					role: 'J', notified: map[string]int{}, fwdInv: map[string]int{}, received: map[string]int{}}
+					role: 'J', notified: map[string]int{}, fwdInv: map[string]int{}, received: map[string]int{}, life: map[string]time.Duration{}}
 				if i == tp.mid && variant == 1 {
 					nd.role = 'O'
 				}
@@ -740,7 +750,6 @@ func TestVerifC38Flood(t *testing.T) {
 				nd.sub.pubs = nil
 			}
 
-			began := time.Now()
 			originate := func(o int, clock int) {
 				nd := net.nodes[o]
 				ck := c38Clocks[clock]
@@ -797,7 +806,7 @@ func TestVerifC38Flood(t *testing.T) {
 					break
 				}
 				jumpOpt := -1
-				if jumpLeft > 0 && msgs == 1 {
+				if jumpLeft > 0 && msgs == 1 && len(tp.edges) <= timeMaxEdges {
 					jumpOpt = opts
 					opts++
 				}
@@ -810,9 +819,6 @@ func TestVerifC38Flood(t *testing.T) {
 					net.elapse(c38Jump)
 					x.Tag("virtual-time-jump")
 					x.Logf("step %d: %s pass on every node", step, c38Jump)
-					if time.Since(began) > 5*time.Second {
-						x.Broken("one execution took more than 5 s of real time; the virtual clock's 15 s margin is not safe any more")
-					}
 				} else if c == len(distinct) && origin2 >= 0 {
 					if len(net.inflight) > 0 {
 						x.Tag("second-message-while-first-in-flight")
@@ -893,28 +899,68 @@ func TestVerifC38Flood(t *testing.T) {
 		})
 }
 
-// elapse emulates d of time passing on every node as far as the
-// de-duplication state can tell: every cache entry with an expiry has d less
-// to live (entries without expiry and already expired entries are unaffected).
+// ---- virtual time -----------------------------------------------------
+//
+// gcache reads the wall clock, which the harness cannot steer, so the
+// de-duplication lifetime is kept virtual: for every expiring entry of a
+// node's cache the harness remembers its remaining life R at the moment the
+// code under test created it (read back through GetExpire right after the
+// invocation, rounded UP by the invocation's real duration). Virtual time only
+// moves in elapse(). Before any code of a node runs, arm() rewrites the real
+// expiry of each remembered entry from R alone: far in the future (R + 1 h)
+// when R > 0, in the past otherwise. Real time - milliseconds normally, many
+// seconds when the box stalls - therefore never decides whether an entry is
+// alive, and the unchanged code (fixed 60 s from receipt, R >= 60 s at
+// creation) can never lose an entry to the single 40 s jump.
+
+const c38Pad = time.Hour
+
+func (n *c38Net) arm(nd *c38Node) {
+	keys := make([]string, 0, len(nd.life))
+	for k := range nd.life {
+		keys = append(keys, k)
+	}
+	sort.Strings(keys)
+	for _, k := range keys {
+		d := -time.Second
+		if r := nd.life[k]; r > 0 {
+			d = r + c38Pad
+		}
+		old, err := nd.cache.UpdateExpire(cacheCtx, k, d)
+		n.x.NoErr(err, "cache expiry update")
+		if old == -1 {
+			n.x.Broken("cache entry %s of n%d vanished", k, nd.idx)
+		}
+	}
+}
+
+// capture records entries the invocation that just ended (re)created.
+func (n *c38Net) capture(nd *c38Node, took time.Duration) {
+	keys, err := nd.cache.Keys(cacheCtx)
+	n.x.NoErr(err, "cache keys")
+	for _, ki := range keys {
+		k, ok := ki.(string)
+		if !ok { // gcache pads Keys() with nil for expired entries
+			continue
+		}
+		left, err := nd.cache.GetExpire(cacheCtx, k)
+		n.x.NoErr(err, "cache expiry")
+		if left > 24*365*time.Hour { // Set(..., 0): never expires, e.g. notifyGroupPeers
+			continue
+		}
+		if r, tracked := nd.life[k]; tracked && r > 0 && left > c38Pad/2 {
+			continue // armed before the invocation and not touched by it
+		}
+		nd.life[k] = left + took
+	}
+}
+
+// elapse lets d of virtual time pass on every node.
 func (n *c38Net) elapse(d time.Duration) {
 	for _, nd := range n.nodes {
-		keys, err := nd.cache.Keys(cacheCtx)
-		n.x.NoErr(err, "cache keys")
-		for _, k := range keys {
-			if k == nil { // gcache pads Keys() with nil for expired entries
-				continue
-			}
-			left, err := nd.cache.GetExpire(cacheCtx, k)
-			n.x.NoErr(err, "cache expiry")
-			if left > 24*time.Hour { // Set(..., 0): never expires
-				continue
-			}
-			nl := left - d
-			if nl == 0 { // 0 would mean "never expires"
-				nl = -time.Millisecond
-			}
-			_, err = nd.cache.UpdateExpire(cacheCtx, k, nl)
-			n.x.NoErr(err, "cache expiry update")
+		for k := range nd.life {
+			nd.life[k] -= d
 		}
+		n.arm(nd)
 	}
 }
